@@ -915,6 +915,12 @@ impl Compiler {
         // Pop try handler after successful completion
         self.builder.emit(Op::PopTry);
 
+        // From here on this statement's handler is no longer on the runtime try stack. While the
+        // catch body runs, a finally-only handler takes its place if there is a finally block
+        // (see the PopTry after the catch body); the finally block itself runs without one.
+        self.try_depth -= 1;
+        let catch_keeps_handler = try_stmt.finalizer.is_some();
+
         // Jump to finally (if exists) or end
         let jump_after_try = self.builder.emit_jump();
 
@@ -922,6 +928,10 @@ impl Compiler {
         let catch_start = self.builder.current_offset();
         if let Some(handler) = &try_stmt.handler {
             self.builder.set_span(handler.span);
+
+            if catch_keeps_handler {
+                self.try_depth += 1;
+            }
 
             // Push scope for catch variable
             self.emit_push_scope();
@@ -951,6 +961,9 @@ impl Compiler {
             // again, otherwise it stays on the try stack and shadows enclosing handlers.
             if try_stmt.finalizer.is_some() {
                 self.builder.emit(Op::PopTry);
+            }
+            if catch_keeps_handler {
+                self.try_depth -= 1;
             }
         }
 
@@ -1001,8 +1014,6 @@ impl Compiler {
                 0
             },
         );
-
-        self.try_depth -= 1;
 
         Ok(())
     }
